@@ -316,20 +316,13 @@ class AbstractDateTime(AnyAtomicType):
                 return value
 
             case YearMonthDuration():
-                month = op(self._dt.month - 1, other.months) % 12 + 1
-                year = self._year + op(self._dt.month - 1, other.months) // 12
+                months = op(self._dt.month - 1, other.months)
+                month = months % 12 + 1
+                year = self._year + (self._year < 0) + months // 12  # astronomical year
                 day = adjust_day(year, month, self._dt.day)
 
-                if year > 0:
-                    dt = self._dt.replace(year=year, month=month, day=day)
-                elif isleap(year):
-                    dt = self._dt.replace(year=4, month=month, day=day)
-                else:
-                    dt = self._dt.replace(year=6, month=month, day=day)
-
-                kwargs = {k: getattr(dt, k) for k in self.pattern.groupindex.keys()}
-                if year <= 0:
-                    kwargs['year'] = year
+                kwargs = {k: getattr(self, k) for k in self.pattern.groupindex.keys()}
+                kwargs.update(year=year if year > 0 else year - 1, month=month, day=day)
                 return type(self)(**kwargs)
 
             case _:
